@@ -16,6 +16,7 @@ RULE = (
     "window (edges within TOL, id/data untouched); limit n>0 -> min(n,|full|) entries whose timestamps are the first n of the unlimited read and which are a "
     "sub-multiset of it, 0 -> empty, n<0 -> unlimited; get_eventcount(window) in [|MUST|, |MUST+MAY|]. Non-trivial = a window strictly cuts through an event and two "
     "stored events overlap or nest."
+    " Extra phase 'large': per backend a bucket of 10 301 events in groups of 3 sharing a start instant, so that the 10 000th and 10 001st newest share one (thorough: also 10 300, 21 000 in groups of 7, 20 003 in fours), read whole, with limits 10001/9999 and through windows that cut a group; ids, order and counts against the model (a read longer than any page or batch a backend may work in)."
 )
 ASSUMPTIONS = [
     "edge tolerance 2 ms and the 24 h maximum event length are taken from the property",
@@ -238,3 +239,74 @@ def run_case(case):
     if any(w["len"] == 0 for w in case["windows"]):
         classes.append("zero_width")
     return {"nontrivial": cut and overlap, "classes": classes, "evals": nevals}
+
+
+# ---------------------------------------------------------------------------
+# large buckets: reads that are longer than any page or batch a backend may work in
+
+_LARGE_NOTE = "extra phase 'large': per backend a bucket of N events in groups of 3 (quick N=10 300; thorough also 21 000 and groups of 7) that share one start instant, read whole (limit -1), with a limit just above/below round sizes and through windows cutting a group; ids, order and counts against the model"
+
+
+def extra_phases(tier, seed, jobs):
+    sizes = [(10301, 3)] if tier == "quick" else [(10301, 3), (10300, 3), (21000, 7), (20003, 4)]
+    return [("large", "phase_large", [{"backend": be, "n": n, "group": g} for be in stores.BACKENDS for n, g in sizes])]
+
+
+def _large(task):
+    from aw_core.models import Event
+
+    be, n, g = task["backend"], task["n"], task["group"]
+    base = 1_650_000_000_000_000
+    with stores.store(be) as ds:
+        with sut(f"{be}: setup of {n} events"):
+            b = stores.create_bucket(ds, "b")
+            # group k: g events starting at the same instant k seconds after base, each 1.5 s long (so neighbours overlap)
+            b.insert([stores.mk_event(Event, {"us": base + (k // g) * 10**6, "off": 0, "dur_us": 1_500_000, "data": {"i": k}}) for k in range(n)])
+        model = [(base + (k // g) * 10**6, k) for k in range(n)]
+        ngroups = (n + g - 1) // g
+        # window edges a quarter of a second away from every start (whole seconds) and end (half seconds): nothing merely touches a window
+        q = 250_000
+        windows = [(None, None), (base + 5 * 10**6 + q, None), (None, base + (ngroups - 200) * 10**6 + q), (base + 100 * 10**6 + q, base + (ngroups - 100) * 10**6 + q)]
+        for ws, we in windows:
+            exp = sorted((i for (t, i) in model if (ws is None or t + 1_500_000 >= ws) and (we is None or t <= we)), key=lambda i: (-(i // g), 0))
+            kw = {}
+            if ws is not None:
+                kw["starttime"] = gen.dt_utc(ws)
+            if we is not None:
+                kw["endtime"] = gen.dt_utc(we)
+            for limit in (-1, 10001, 9999, len(exp) + 5):
+                with sut(f"{be}: get(limit={limit}) over {n} events"):
+                    got = [e.data["i"] for e in b.get(limit=limit, **kw)]
+                want = len(exp) if limit < 0 else min(limit, len(exp))
+                what = f"{be}: {n} events in groups of {g} per instant, window [{ws}, {we}] us, limit {limit}"
+                if len(got) != len(set(got)):
+                    raise Violation(f"{what}: an event is returned twice")
+                if len(got) != want:
+                    raise Violation(f"{what}: {len(got)} events returned, {want} intersect the window (within the limit); missing e.g. {sorted(set(exp) - set(got))[:5]}")
+                if [i // g for i in got] != [i // g for i in exp[:want]]:
+                    raise Violation(f"{what}: not newest first, or not the newest {want}")
+                if limit < 0 and set(got) != set(exp):
+                    raise Violation(f"{what}: wrong events: missing {sorted(set(exp) - set(got))[:5]}, unexpected {sorted(set(got) - set(exp))[:5]}")
+            with sut(f"{be}: get_eventcount over {n} events"):
+                cnt = b.get_eventcount(**kw)
+            if cnt != len(exp):
+                raise Violation(f"{be}: {n} events in groups of {g} per instant, window [{ws}, {we}] us: count {cnt}, {len(exp)} events intersect the window")
+    return 4 * len(windows) + len(windows)
+
+
+def phase_large(task):
+    from vlib.runner import Stats
+
+    st_ = Stats()
+    try:
+        st_.evals = _large(task)
+    except Violation as v:
+        st_.failure = {"kind": "large", "case": task, "message": v.msg[:1500]}
+        return st_
+    st_.classes[f"large:{task['backend']}:{task['n']}"] = 1
+    return st_
+
+
+def replay_large(task):
+    _large(task)
+
